@@ -20,7 +20,9 @@ type checkFn func(c *Ctx, ev *Evidence) ([]Violation, error)
 
 var registry = map[string]checkFn{
 	"C01": runC01,
+	"C02": runC02,
 	"C05": runC05,
+	"C07": runC07,
 	"C06": runC06,
 	"C08": runC08,
 	"C09": runC09,
